@@ -52,10 +52,11 @@ def zero(self):
 def emit_per_domain(tree):
   """PerDomainMetric.evaluate_example: the base statistic is expanded by a leading axis and selected against the
   base zero() by the one-hot (boolean) mask of the example's domain id: domain d holds the base statistic when
-  d == domain id and the base zero otherwise."""
+  d == domain id and the base zero otherwise.  (The domain id is cast to int32 first: an identity on the model's
+  natural-number ids; with a narrow dtype such as uint8 the comparison against arange(num_domains) would wrap.)"""
   h = match_def(find_def(tree, 'PerDomainMetric.evaluate_example'), '''
 def evaluate_example(self, H_example, H_prediction):
-  H_mask = jax.nn.one_hot(H_example[self.domain_id_key], self.num_domains, dtype=jnp.bool_)
+  H_mask = jax.nn.one_hot(jnp.asarray(H_example[self.domain_id_key], jnp.int32), self.num_domains, dtype=jnp.bool_)
   def where(H_a, H_b):
     return apply_mask(H_mask, jnp.expand_dims(H_a, 0), jnp.expand_dims(H_b, 0))
   return jax.tree_util.tree_map(where, self.base.evaluate_example(H_example, H_prediction), self.base.zero())
